@@ -54,7 +54,7 @@ static void check_table(const table_t* t, const char* path, int64_t ci, const ch
     /* projections at two batch sizes */
     int pbs[2] = {7, 65536};
     for (int pi = 0; pi < 2; pi++) { int bs = pbs[pi]; if (total > 3000 && bs < 64) continue; int proj[16];
-        for (int c = 0; c < t->ncols; c++) { proj[0] = c; snprintf(ctx, sizeof ctx, "%s mode=%s batch_size=%d proj=single(%d) by_%s", tag, IO_NAME[mode], bs, c, (c & 1) ? "name" : "index"); v_case(v_hash(ctx, strlen(ctx), 2)); int unique_name = 1; for (int d = 0; d < t->ncols; d++) if (d != c && !strcmp(t->cols[d].name, t->cols[c].name)) unique_name = 0; if (batch_check(o.rd, t, map, bs, proj, 1, (c & 1) && unique_name, 1, ctx, "batch-projection")) break; v_count("projections_checked"); }
+        for (int c = 0; c < t->ncols; c++) { proj[0] = c; snprintf(ctx, sizeof ctx, "%s mode=%s batch_size=%d proj=single(%d) by_%s", tag, IO_NAME[mode], bs, c, (c % 3 == 1) ? "name" : (c % 3 == 2) ? "path" : "index"); v_case(v_hash(ctx, strlen(ctx), 2)); int unique_name = 1; for (int d = 0; d < t->ncols; d++) if (d != c && !strcmp(t->cols[d].name, t->cols[c].name)) unique_name = 0; if (batch_check(o.rd, t, map, bs, proj, 1, c % 3 == 1 ? unique_name : c % 3 == 2 ? 2 : 0, 1, ctx, "batch-projection")) break; v_count("projections_checked"); }
         for (int c = 0; c < t->ncols; c++) proj[c] = t->ncols - 1 - c; snprintf(ctx, sizeof ctx, "%s mode=%s batch_size=%d proj=reversed", tag, IO_NAME[mode], bs); v_case(v_hash(ctx, strlen(ctx), 3)); (void)batch_check(o.rd, t, map, bs, proj, t->ncols, 0, 1, ctx, "batch-projection"); v_count("projections_checked");
         if (t->ncols >= 1) { proj[0] = 0; proj[1] = t->ncols - 1; proj[2] = 0; snprintf(ctx, sizeof ctx, "%s mode=%s batch_size=%d proj=duplicates", tag, IO_NAME[mode], bs); v_case(v_hash(ctx, strlen(ctx), 4)); (void)batch_check(o.rd, t, map, bs, proj, 3, 0, 1, ctx, "batch-projection"); v_count("projections_checked"); } }
     free(map); rd_close(&o);
